@@ -112,14 +112,14 @@ type mspec = {
   mutable qu : char list; mutable pr : char list; mutable ra : char list; mutable re : char list;
   mutable ho : char list; mutable st : int; mutable api : bool; mutable cl : int;
   mutable te : char list list option; mutable hs : (char list * char list) list;
-  mutable body : char list;
+  mutable body : char list; mutable br : string;
 }
 
 let cs = chars_of_string
 
 let new_spec () = { kind = "Q"; id = cs "00000000"; me = cs "GET"; sc = cs "http"; au = cs "example.com";
                     pa = cs "/"; qu = []; pr = cs "HTTP/1.1"; ra = []; re = cs "200 OK"; ho = []; st = 200;
-                    api = false; cl = 0; te = None; hs = []; body = [] }
+                    api = false; cl = 0; te = None; hs = []; body = []; br = "" }
 
 let pat_bytes (len : int) (seed : int) : char list =
   List.init len (fun i -> Char.chr ((i * 131 + (i lsr 8) * 31 + (i lsr 16) * 17 + seed) land 255))
@@ -156,6 +156,7 @@ let parse_ms_in (toks : string list) : mspec list =
                    | [a; b] -> m.body <- pat_bytes (int_of_string a) (int_of_string b)
                    | _ -> raise (Bad t))
                | "bx" -> m.body <- chars_of_hex v
+               | "br" -> m.br <- v
                | "ck" | "rb" | "eof" | "err" | "zr" | "stop" | "more" | "hold" -> ()
                | _ -> raise (Bad t))) toks;
   List.rev !msgs
@@ -167,7 +168,7 @@ let group_headers (hs : (char list * char list) list) = hs
 type mobs = {
   mutable cid : char list; mutable ep : char list; mutable t0 : string; mutable t1 : string;
   mutable u : string option; mutable w : string option; mutable wb : char list;
-  mutable panicked : bool;
+  mutable panicked : bool; mutable read_panicked : bool;
 }
 
 let parse_reads (body_src : char list) (spec : string) : (char list * rerr) list option =
@@ -201,7 +202,7 @@ let judge_ms (ins : string list) (outs : string list) : verdict =
         if starts_with "SINK=" t then tail := t :: r
         else begin
           (if String.length t >= 2 && t.[0] = 'm' && t.[1] >= '0' && t.[1] <= '9' then begin
-              let o = { cid = []; ep = []; t0 = "0"; t1 = "0"; u = None; w = None; wb = []; panicked = false } in
+              let o = { cid = []; ep = []; t0 = "0"; t1 = "0"; u = None; w = None; wb = []; panicked = false; read_panicked = false } in
               cur := Some o; obs := o :: !obs end
            else match !cur with
              | None -> ()
@@ -213,7 +214,8 @@ let judge_ms (ins : string list) (outs : string list) : verdict =
                  else if starts_with "U=" t then o.u <- Some (after "U=" t)
                  else if starts_with "W=" t then o.w <- Some (after "W=" t)
                  else if starts_with "WB=" t then o.wb <- chars_of_hex (after "WB=" t)
-                 else if t = "P=PANIC" then o.panicked <- true);
+                 else if t = "P=PANIC" then o.panicked <- true
+                 else if t = "RP=PANIC" then o.read_panicked <- true);
           scan r
         end in
   scan outs;
@@ -224,6 +226,7 @@ let judge_ms (ins : string list) (outs : string list) : verdict =
     | [] -> List.rev (match cur with None -> acc | Some c -> List.rev c :: acc)
     | t :: r when starts_with "SINK=" t ->
         split_secs (match cur with None -> acc | Some c -> List.rev c :: acc) (Some [t]) r
+    | t :: r when starts_with "SAME=" t -> split_secs acc cur r
     | t :: r -> (match cur with Some c -> split_secs acc (Some (t :: c)) r | None -> split_secs acc None r) in
   let secs = split_secs [] None !tail in
   if secs = [] then VDisagree "no-sink-section-in-observation" else
@@ -265,6 +268,12 @@ let judge_ms (ins : string list) (outs : string list) : verdict =
           []
       | Some wid ->
           if o.panicked then begin fail "logging_panicked" (Printf.sprintf "m%d" j); [] end else
+          (* a nil body: the unchanged code wraps it and the wrapper's Read
+             dereferences nil; leaving the body nil is accepted as well.  Either
+             way there is nothing to read: no data frame is expected. *)
+          let () = if o.read_panicked && sp.br <> "nil" then
+            fail "read_panicked" (Printf.sprintf "m%d: reading the body through the logging wrapper panicked" j) in
+          let o = if sp.br = "nil" then { o with u = Some "-"; w = Some "-"; wb = [] } else o in
           let unders = match o.u with Some u -> parse_reads sp.body u | None -> None in
           let wrapped = match o.w with Some w -> parse_reads o.wb w | None -> None in
           (match unders, wrapped with
@@ -356,6 +365,15 @@ let judge_ms (ins : string list) (outs : string list) : verdict =
         (match split_readers r with
          | (_, toks) :: _ -> (match parse_observed toks with Ok o -> Some (raw, o) | Error _ -> None)
          | [] -> None) in
+  (* sections of independent streams (NS=n) carry the prefix "s<k>:"; each
+     stream is judged on its own, its first section being its reference *)
+  let group_of sec = let n = sname sec in
+    (match String.index_opt n ':' with Some i when i > 0 && n.[0] = 's' -> String.sub n 0 i | _ -> "") in
+  let groups = List.fold_left (fun acc sec ->
+      let g = group_of sec in
+      if List.mem_assoc g acc then List.map (fun (g', l) -> if g' = g then (g', l @ [sec]) else (g', l)) acc
+      else acc @ [(g, [sec])]) [] secs in
+  let judge_group (secs : string list list) : verdict =
   let first = List.hd secs in
   if starts_with "harness-error" (note_of first) then VDisagree (note_of first) else
   if note_of first <> "" then VOk false  (* no complete reference observation: undecided *) else
@@ -388,7 +406,8 @@ let judge_ms (ins : string list) (outs : string list) : verdict =
           if not (fin_eq mfin fin) || not (frames_eq mf got) then VDisagree "reader-vs-model on what the subscriber received"
           else VOk (List.length got >= 10) in
   worst (tagv "sink" (sname first) (judge_section first)
-         :: List.map (fun sec -> tagv "sink" (sname sec) (judge_other sec)) (List.tl secs))
+         :: List.map (fun sec -> tagv "sink" (sname sec) (judge_other sec)) (List.tl secs)) in
+  worst (List.map (fun (_, l) -> judge_group l) groups)
 
 let judge _name ins outs =
   match ins with
